@@ -175,6 +175,38 @@ def ordEngine (f : String) (args : List String) : String :=
         Ord.showLRes (Sort.Heap.nLargest le n xs)
       else "bad-op"
     | _, _, _ => "bad-op"
+  | "pairfail", [fn, k, fa, fb, xs] =>
+    -- comparators that answer an error on the PAIR {fa, fb} (either order), plain integer order otherwise,
+    -- through `XSequence::sorted` (pre-pass + try_sort), quickselect and the heap
+    match k.toNat?, fa.toInt?, fb.toInt?, Ord.parseInts xs with
+    | some k, some fa, some fb, some xs =>
+      let hit (a b : Int) : Bool := (a == fa && b == fb) || (a == fb && b == fa)
+      let cmp3 (neg : Bool) : Sort.Cmp3 String Int := fun _ a b =>
+        if hit a b then .error "pair" else .ok (if neg then Derive.sign (b - a) else Derive.sign (a - b))
+      let showSel : Option (Sort.Res String Int (Int × List Int)) → String
+        | none => "oob"
+        | some (.ok (x, _) _) => s!"ok {x}"
+        | some (.fail _ _ _) => "fail"
+        | some .panic => "panic"
+      let showSorted (xs : List Int) : Sort.Res String Int (Option (List Int)) → String
+        | .ok none _ => s!"ok {Ord.showInts xs}"
+        | .ok (some l) _ => s!"ok {Ord.showInts l}"
+        | .fail _ _ _ => "fail"
+        | .panic => "panic"
+      let showL : Sort.LRes String Int → String
+        | .ok l _ => s!"ok {Ord.showInts l}"
+        | .fail _ _ _ => "fail"
+        | .panic => "panic"
+      match fn with
+      | "sort" => showSorted xs (Sort.seqSorted (cmp3 false) xs)
+      | "sort_reverse" => showSorted xs (Sort.seqSorted (cmp3 true) xs)
+      | "nth_smallest" => showSel (Sort.Select.nthSmallest (cmp3 false) xs k)
+      | "nth_largest" => showSel (Sort.Select.nthLargest (cmp3 false) xs k)
+      | "median" => showSel (Sort.Select.median (cmp3 false) xs)
+      | "n_largest" => showL (Sort.Heap.nLargest (fun i a b => (cmp3 false i a b).map (fun c => decide (c ≤ 0))) k xs)
+      | "n_smallest" => showL (Sort.Heap.nLargest (fun i a b => (cmp3 false i a b).map (fun c => decide (c ≥ 0))) k xs)
+      | _ => "bad-op"
+    | _, _, _, _ => "bad-op"
   | "select", [d, target, fa, fb, xs] =>
     -- quickselect by key x / d; the comparator errors on the pair (fa, fb)
     match d.toInt?, target.toNat?, fa.toInt?, fb.toInt?, Ord.parseInts xs with
